@@ -1,7 +1,8 @@
 --------------------------- MODULE MC_VersCorrupt ---------------------------
 EXTENDS VersCorrupt, VersSeeds, Json
 CONSTANTS NSeeds, RoutingIdx
-SeedsDef == SeedSet(NSeeds) \cup NearMissSet
+PreSeedSet == {<<"pypi", "vers:pypi/" \o SeedTable.pypi[i][1], p>> : i \in 1..NSeeds, p \in PypiPreProbes}
+SeedsDef == SeedSet(NSeeds) \cup NearMissSet \cup PreSeedSet \cup SingleSeedSet
 RoutingDef == RoutingSet(RoutingIdx)
 Init == CInit
 Next == CNext
